@@ -18,12 +18,12 @@ SVC, MAJOR = 0x4321, 2
 
 
 def bounds(tier):
-    n = 4 if tier == "thorough" else 2
+    n = 6 if tier == "thorough" else 2
     return {"H16": "every header byte symbolic (service, method, client, session 16 bit; protocol version, interface version, message type, return code 8 bit, incl. undefined codes), payload of 0..%d symbolic bytes, unicast/multicast symbolic, three handlers" % n}
 
 
 def cases(tier, seed):
-    n = 4 if tier == "thorough" else 2
+    n = 6 if tier == "thorough" else 2
     return [{"h": "H16", "plen": k} for k in range(n + 1)]
 
 
